@@ -12,6 +12,7 @@ from vf.hyp import drive, st
 from vf.runner import Collector
 
 ID = "C05"
+EARLY_ATTRIBUTION = True  # region predicates are cheap scans of the stored case
 LEVEL = "exploration"
 RULE = ("For every rule object exported by onnxscript.rewriter.rules.common (and the module-level rules of rules.fusion) a host "
         "strategy (vf/rulehosts) emits a small model embedding an instance or a near-miss of the rule's target pattern with "
